@@ -12,6 +12,11 @@
     for finished statuses, fresh ExecID, stable OrderID (also for two reports
     fabricated in a row before the first is processed), processed by the order
     object without an exception.
+    One helper call costs ~19 us and the grid has 1-2.5 x 10^5 points per state,
+    so chains are extended only with reports / rejects that an exchange keeping
+    its books could send (small model: Track / plausible); every other accepted
+    report is still judged and processed one step deep (thorough tier: the
+    states such reports lead to from the first levels are expanded as leaves).
 (b) Fidelity.  Every clean session script up to a length bound is run once
     against FIXTester(connection=conn) and once against a real
     AsyncFIXDummyServer on a fake link (props/c20_world.py); the initiator's
@@ -19,10 +24,9 @@
     counters are compared after every step.
 """
 import copy
-import itertools
 import os
 import time as _time
-from math import isfinite, isnan, nan
+from math import isfinite, nan
 
 from mc.runner import HarnessError
 from mc.world import dict_of
